@@ -1158,3 +1158,57 @@ Theorem C05_arcslab_example :
      ArcSlab.obs_pages y = 3%nat /\ ArcSlab.obs_items y = Some 2%N).
 Proof. exact (conj ArcSlabExamples.ex_run (conj ArcSlabExamples.ex_mid ArcSlabExamples.ex_one_slot)). Qed.
 Print Assumptions C05_arcslab_example.
+
+(* ================================================================================================
+   STOREREF — the counts of the index-based manager's node store (coq/Mgr/IndexStore.v = ALLOC's slot
+   allocator x payloads / stored counts x edge values; see the STOREREF section of Props/C20.v).  In every
+   state that satisfies the store invariant (every state reachable from a new manager under any interleaving
+   of `add_node` / `clone_edge` / `drop_edge` / removals / allocator-internal actions of any threads that stays
+   inside `drop_edge`'s assumption): a slot has a payload iff the allocator counts it as a node; its STORED
+   count = number of edge values held by clients (thread-local edges, `Function`s, the unique table's entry)
+   + number of child edges stored in nodes that point to it, and is never 0; nothing points to a slot without
+   node; every child edge is an edge value and its holder is a live node.  (Qualified names.) *)
+From OxiVerif Require Tbl.RcStore Mgr.Alloc Mgr.AllocInv Mgr.IndexStore Mgr.IndexStoreProofs.
+
+Theorem C05_index_store_counts : forall c s, IndexStoreProofs.IInv c s ->
+  (forall id, match IndexStore.nget (IndexStore.i_nodes s) id with
+              | Some (p, rc) => rc = N.of_nat (IndexStore.nclient s id + IndexStore.nparent s id) /\ (1 <= rc)%N /\
+                                Alloc.sget (Alloc.sl (IndexStore.i_al s)) id = Alloc.SNode
+              | None => IndexStore.nclient s id = 0%nat /\ IndexStore.nparent s id = 0%nat /\
+                        Alloc.sget (Alloc.sl (IndexStore.i_al s)) id <> Alloc.SNode
+              end) /\
+  (forall k pid, In (k, pid) (IndexStore.i_own s) ->
+     exists id, RcStore.afind k (IndexStore.i_hs s) = Some id /\ IndexStore.nget (IndexStore.i_nodes s) pid <> None).
+Proof. exact IndexStoreProofs.index_store_counts. Qed.
+Print Assumptions C05_index_store_counts.
+
+Theorem C05_index_store_counts_def : forall s id,
+  IndexStore.nclient s id =
+    length (filter (fun e => (snd e =? id)%N && negb (IndexStore.bound (IndexStore.i_own s) (fst e))) (IndexStore.i_hs s)) /\
+  IndexStore.nparent s id =
+    length (filter (fun e => (snd e =? id)%N && IndexStore.bound (IndexStore.i_own s) (fst e)) (IndexStore.i_hs s)) /\
+  (forall hs h, IndexStore.bound hs h = match RcStore.afind h hs with Some _ => true | None => false end).
+Proof. intros. repeat split; reflexivity. Qed.
+Print Assumptions C05_index_store_counts_def.
+
+(* preserved by the store layer: every operation of every thread (inside the assumption), every run *)
+Theorem C05_index_store_step_inv : forall c s o s' r,
+  IndexStoreProofs.IInv c s -> IndexStore.istep c s o = Some (s', r) -> IndexStore.leaked r = false ->
+  IndexStoreProofs.IInv c s'.
+Proof. intros c s o s' r HI H Hl. exact (proj1 (IndexStoreProofs.istep_refines c s o s' r HI H Hl)). Qed.
+Print Assumptions C05_index_store_step_inv.
+
+Theorem C05_index_store_counts_reachable : forall c s n ops rs id p rc,
+  (1 <= Alloc.chunk c)%N -> (1 <= Alloc.term c)%N ->
+  IndexStore.irun c (IndexStore.iinit c n) ops = Some (s, rs) -> IndexStoreProofs.no_leak rs = true ->
+  IndexStore.nget (IndexStore.i_nodes s) id = Some (p, rc) ->
+  rc = N.of_nat (IndexStore.nclient s id + IndexStore.nparent s id) /\ (1 <= rc)%N /\
+  In id (Alloc.live_slots c (IndexStore.i_al s)).
+Proof.
+  intros c s n ops rs id p rc Hc Ht H Hnl Hn.
+  assert (HI : IndexStoreProofs.IInv c s) by (apply IndexStoreProofs.ireachable_inv; exists n, ops, rs; auto).
+  destruct (IndexStoreProofs.index_store_counts c s HI) as [Hcnt _]. specialize (Hcnt id). rewrite Hn in Hcnt.
+  destruct Hcnt as (E & P & L). split; [exact E|]. split; [exact P|].
+  apply (proj2 (IndexStoreProofs.live_listing c s HI)). cbn. rewrite Hn. discriminate.
+Qed.
+Print Assumptions C05_index_store_counts_reachable.
